@@ -20,6 +20,11 @@
      RegsAgree    decoder registers = encoder registers (separate chains per field and per member type,
                   all cleared by reset)
      DecodedOK    what has been decoded is a prefix of Data(ds); at the end it is Data(ds)
+   A reader may ask for a subset of the object types (mask).  The code then skips the other data sets WITHOUT decoding
+   them (SkipUndecoded) - table and registers of the decoder fall behind the encoder's.  Because a reset precedes every
+   change of object type (TypeResets) they meet again before the next wanted data set: TableAgree / RegsAgree are
+   required whenever the decoder works on a wanted data set, DecodedOK compares with SelectSeq(D, wanted).
+   MCO5mMaskAsShipped.cfg (TypeResets = FALSE) shows all three fail for files without those resets (known finding).
    RoleLimit = 250 is the format's rule for single strings (member type + role), 251 is what
    ReferenceTable::add(size <= 252) implements; MCO5mAsShipped.cfg shows TableAgree / DecodedOK fail
    with 251 on data set "role250" (recorded as known finding, see DESIGN). *)
@@ -32,13 +37,16 @@ CONSTANTS N,            \* rows of the reference table (15000 in the format; 3 h
           HdrSet,       \* header data sets (bbox, filets) it may insert
           RefPolicy,    \* "any": inline or any matching row; "first": always the newest matching row; "inline": never a reference
           BulkN,        \* size of the generated data set "bulk" (more distinct strings than the real table has rows)
+          MaskSet,      \* the sets of object types a reader may ask for (osm_entity_bits)
+          TypeResets,   \* TRUE: a reset precedes every change of object type (what every known producer writes)
+          SkipUndecoded,\* TRUE: data sets of a type the reader did not ask for are skipped WITHOUT decoding (as the code does)
           FillOnly,     \* TRUE: the first BulkN objects of "bulk" are only taken by FillerRun (one action for all of them)
           ExportHist
-VARIABLES ds, variant, pc, i, slot, fresh, nextra,
+VARIABLES ds, variant, mask, pc, i, slot, fresh, nextra,
           mru, ereg,                 \* encoder
           ring, cur, dreg,           \* decoder
           dobj, decoded, box, hist
-vars == <<ds, variant, pc, i, slot, fresh, nextra, mru, ereg, ring, cur, dreg, dobj, decoded, box, hist>>
+vars == <<ds, variant, mask, pc, i, slot, fresh, nextra, mru, ereg, ring, cur, dreg, dobj, decoded, box, hist>>
 
 \* "bulk": BulkN nodes with one new tag each, then nodes whose tags were seen 1, N-1, N and N+1 .. insertions ago
 BulkTag(j) == T(ToString(j), "v")
@@ -87,7 +95,12 @@ RECURSIVE FinalMems(_, _, _)
 FinalMems(ms, k, reg) == IF k > Len(ms) THEN reg ELSE FinalMems(ms, k + 1, [reg EXCEPT ![ms[k].mt] = ms[k].ref])
 MReg(reg) == [n |-> reg.n, w |-> reg.w, r |-> reg.r]
 
-Init == /\ ds \in DSNames /\ variant \in {"o5m", "o5c"}
+Wanted(o) == o.t \in mask                     \* read_types() & osm_entity_bits::...
+Decodes(o) == Wanted(o) \/ ~SkipUndecoded      \* does the decoder look into this data set at all
+Selected == SelectSeq(D, Wanted)               \* A-layer: what a reader that asked for `mask` must deliver
+
+Init == /\ ds \in DSNames /\ variant \in {"o5m", "o5c"} /\ mask \in MaskSet
+        /\ ds = "bulk" => mask = {"n", "w", "r"}
         /\ LET dd == D IN /\ (\E k \in 1..Len(dd) : ~dd[k].vis) => variant = "o5c"
                           /\ \A k \in 1..Len(dd) : O5mCarries(dd[k])
         /\ pc = "obj" /\ i = 1 /\ slot = 0 /\ fresh = TRUE /\ nextra = 0
@@ -104,14 +117,14 @@ Reset == /\ pc = "obj" /\ nextra < MaxExtra /\ i <= Len(D)
          /\ cur' = 0 /\ dreg' = ZeroReg
          /\ fresh' = TRUE /\ nextra' = nextra + 1
          /\ Rec([a |-> "reset"])
-         /\ UNCHANGED <<ds, variant, pc, i, slot, ring, dobj, decoded, box>>
+         /\ UNCHANGED <<ds, variant, mask, pc, i, slot, ring, dobj, decoded, box>>
 \* the mandatory reset in front of the first object of another type (not counted against MaxExtra)
-TypeReset == /\ pc = "obj" /\ i > 1 /\ i <= Len(D) /\ D[i].t # D[i - 1].t /\ ~fresh
+TypeReset == /\ TypeResets /\ pc = "obj" /\ i > 1 /\ i <= Len(D) /\ D[i].t # D[i - 1].t /\ ~fresh
              /\ mru' = <<>> /\ ereg' = ZeroReg
              /\ cur' = 0 /\ dreg' = ZeroReg
              /\ fresh' = TRUE
              /\ Rec([a |-> "reset"])
-             /\ UNCHANGED <<ds, variant, pc, i, slot, nextra, ring, dobj, decoded, box>>
+             /\ UNCHANGED <<ds, variant, mask, pc, i, slot, nextra, ring, dobj, decoded, box>>
 
 (* data sets a reader has to skip: sync (0xee), jump (0xef), types no version of the format defines
    (with content, without content, with a 2 byte length), single byte data sets 0xf0..0xfd *)
@@ -119,18 +132,18 @@ SkipKinds == {"sync", "jump", "unknown", "unknown0", "unknownL", "byte"} \cap Sk
 Skip(kind) == /\ pc = "obj" /\ nextra < MaxExtra
               /\ nextra' = nextra + 1
               /\ Rec([a |-> "skip", kind |-> kind])
-              /\ UNCHANGED <<ds, variant, pc, i, slot, fresh, mru, ereg, ring, cur, dreg, dobj, decoded, box>>
+              /\ UNCHANGED <<ds, variant, mask, pc, i, slot, fresh, mru, ereg, ring, cur, dreg, dobj, decoded, box>>
 \* header data before the first object: bounding box (0xdb), file timestamp (0xdc)
 HeaderDs(kind) == /\ pc = "obj" /\ i = 1 /\ nextra < MaxExtra /\ (kind = "bbox" => ~box)
                   /\ nextra' = nextra + 1 /\ box' = (box \/ kind = "bbox")
                   /\ Rec([a |-> kind])
-                  /\ UNCHANGED <<ds, variant, pc, i, slot, fresh, mru, ereg, ring, cur, dreg, dobj, decoded>>
+                  /\ UNCHANGED <<ds, variant, mask, pc, i, slot, fresh, mru, ereg, ring, cur, dreg, dobj, decoded>>
 
 (* the numeric part of a data set: id, version, timestamp, changeset, lon/lat or reference section *)
 ObjStart ==
     /\ pc = "obj" /\ i <= Len(D)
     /\ ~(FillOnly /\ ds = "bulk" /\ i <= BulkN)
-    /\ IF i = 1 \/ fresh THEN TRUE ELSE D[i - 1].t = D[i].t
+    /\ IF i = 1 \/ fresh \/ ~TypeResets THEN TRUE ELSE D[i - 1].t = D[i].t
     /\ LET o == D[i]
            \* ---- encoder: deltas against its registers
            wId  == o.id - ereg.id
@@ -166,7 +179,7 @@ ObjStart ==
                  ELSE IF o.t = "w" THEN [d1 EXCEPT !.wref = LastOr(refs, @)]
                  ELSE LET f == FinalMems([j \in 1..Len(mems) |-> [mt |-> o.mems[j].mt, ref |-> mems[j]]], 1, MReg(d1))
                       IN [d1 EXCEPT !.n = f.n, !.w = f.w, !.r = f.r]
-       IN /\ ereg' = e2 /\ dreg' = d2
+       IN /\ ereg' = e2 /\ dreg' = IF Decodes(o) THEN d2 ELSE dreg
           /\ dobj' = [num |-> [t |-> o.t, id |-> id, v |-> o.v, vis |-> body, cs |-> cs, ts |-> ts,
                                lon |-> IF body /\ o.t = "n" THEN Wrap(lonAcc) ELSE NoCoord,
                                lat |-> IF body /\ o.t = "n" THEN Wrap(latAcc) ELSE NoCoord,
@@ -176,7 +189,7 @@ ObjStart ==
                       strs |-> <<>>]
     /\ pc' = "strs" /\ slot' = 1 /\ fresh' = FALSE
     /\ Rec([a |-> "obj", i |-> i - 1, strs |-> <<>>])
-    /\ UNCHANGED <<ds, variant, i, nextra, mru, ring, cur, decoded, box>>
+    /\ UNCHANGED <<ds, variant, mask, i, nextra, mru, ring, cur, decoded, box>>
 
 \* a string (pair) written inline enters the table: A = list with the newest first, I = ReferenceTable::add
 AIns(m, b) == IF FormatStores(b) THEN SubSeq(<<b>> \o m, 1, Min(N, Len(m) + 1)) ELSE m
@@ -191,13 +204,13 @@ Str == /\ pc = "strs" /\ slot <= Len(Slots(D[i]))
        /\ LET b == Slots(D[i])[slot] IN
           \E how \in Hows(b) :
              /\ LET got == IF how = 0 THEN b ELSE ring[(cur + N - how) % N]        \* ReferenceTable::get
-                IN dobj' = [dobj EXCEPT !.strs = Append(@, got)]
+                IN dobj' = IF Decodes(D[i]) THEN [dobj EXCEPT !.strs = Append(@, got)] ELSE dobj
              /\ mru' = IF how = 0 THEN AIns(mru, b) ELSE mru
-             /\ LET rc == IF how = 0 THEN IIns(ring, cur, b) ELSE [ring |-> ring, cur |-> cur]
+             /\ LET rc == IF how = 0 /\ Decodes(D[i]) THEN IIns(ring, cur, b) ELSE [ring |-> ring, cur |-> cur]
                 IN ring' = rc.ring /\ cur' = rc.cur
              /\ hist' = IF ExportHist THEN [hist EXCEPT ![Len(hist)].strs = Append(@, how)] ELSE hist
        /\ slot' = slot + 1
-       /\ UNCHANGED <<ds, variant, pc, i, fresh, nextra, ereg, dreg, decoded, box>>
+       /\ UNCHANGED <<ds, variant, mask, pc, i, fresh, nextra, ereg, dreg, decoded, box>>
 
 UidOf(a) == CHOOSE u \in 0..63 : ToString(u) = a
 \* assemble the object from the decoded numbers and strings (builder calls of decode_*)
@@ -216,9 +229,9 @@ Assemble(d) ==
            [j \in 1..nm |-> [mt |-> s[u + j].a, ref |-> n.mrefs[j], role |-> s[u + j].b]])
 
 ObjEnd == /\ pc = "strs" /\ slot > Len(Slots(D[i]))
-          /\ decoded' = Append(decoded, Assemble(dobj))
+          /\ decoded' = IF Wanted(D[i]) THEN Append(decoded, Assemble(dobj)) ELSE decoded
           /\ i' = i + 1 /\ pc' = "obj" /\ slot' = 0
-          /\ UNCHANGED <<ds, variant, fresh, nextra, mru, ereg, ring, cur, dreg, dobj, box, hist>>
+          /\ UNCHANGED <<ds, variant, mask, fresh, nextra, mru, ereg, ring, cur, dreg, dobj, box, hist>>
 
 (* The first BulkN objects of the data set "bulk" (node j at 0/0 with the single new tag j=v, all strings inline) in ONE
    action: the BulkN-fold composition of ObjStart ; Str(inline) ; ObjEnd in closed form (starting from an empty table):
@@ -237,14 +250,14 @@ FillerRun == /\ ds = "bulk" /\ pc = "obj" /\ i = 1 /\ nextra = 0 /\ mru = <<>> /
              /\ decoded' = FillDec
              /\ i' = BulkN + 1 /\ fresh' = FALSE
              /\ Rec([a |-> "fill", n |-> BulkN])
-             /\ UNCHANGED <<ds, variant, pc, slot, nextra, dobj, box>>
+             /\ UNCHANGED <<ds, variant, mask, pc, slot, nextra, dobj, box>>
 FillAgree == (ds = "bulk" /\ pc = "obj" /\ i = BulkN + 1 /\ nextra = 0) =>
                 /\ mru = FillMru /\ ring = FillRing([x \in 0..N - 1 |-> NoStr]) /\ cur = BulkN % N
                 /\ ereg = FillReg /\ dreg = FillReg /\ decoded = FillDec
 
 Finish == /\ pc = "obj" /\ i > Len(D)
           /\ pc' = "done"
-          /\ UNCHANGED <<ds, variant, i, slot, fresh, nextra, mru, ereg, ring, cur, dreg, dobj, decoded, box, hist>>
+          /\ UNCHANGED <<ds, variant, mask, i, slot, fresh, nextra, mru, ereg, ring, cur, dreg, dobj, decoded, box, hist>>
 
 Next == Reset \/ TypeReset \/ (\E k \in SkipKinds : Skip(k)) \/ (\E k \in {"bbox", "filets"} \cap HdrSet : HeaderDs(k))
         \/ ObjStart \/ Str \/ ObjEnd \/ FillerRun \/ Finish
@@ -252,15 +265,19 @@ Spec == Init /\ [][Next]_vars
 
 (* ---------------------------------------------------------------- properties *)
 TypeOK == /\ cur \in 0..N - 1 /\ Len(mru) <= N /\ i \in 1..Len(D) + 1
-TableAgree == \A idx \in 1..Len(mru) : ring[(cur + N - idx) % N] = mru[idx]
+\* the decoder is at work on a data set the reader asked for (or may start one now)
+CanStart == i <= Len(D) /\ (IF i = 1 \/ fresh \/ ~TypeResets THEN TRUE ELSE D[i - 1].t = D[i].t)
+Active == \/ pc = "strs" /\ Wanted(D[i])
+          \/ pc = "obj" /\ CanStart /\ Wanted(D[i])
+TableAgree == Active => \A idx \in 1..Len(mru) : ring[(cur + N - idx) % N] = mru[idx]
 \* the decoder's lon / lat registers are 64 bit accumulators: equal to the encoder's 32 bit registers modulo 2^32
-RegsAgree == pc \in {"obj", "done"} => [dreg EXCEPT !.lon = Wrap(@), !.lat = Wrap(@)] = ereg
-\* one object is appended per step, so "the newest object is right" at every reachable state = "decoded is a prefix of D"
-DecodedOK == /\ Len(decoded) <= Len(D)
-             /\ decoded # <<>> => decoded[Len(decoded)] = D[Len(decoded)]
-             /\ pc = "done" => Len(decoded) = Len(D)
-             /\ (pc = "strs" /\ dobj.strs # <<>>) => dobj.strs[Len(dobj.strs)] = Slots(D[i])[Len(dobj.strs)]
+RegsAgree == (pc = "obj" /\ CanStart /\ Wanted(D[i])) => [dreg EXCEPT !.lon = Wrap(@), !.lat = Wrap(@)] = ereg
+\* one object is appended per step, so "the newest object is right" at every reachable state = "decoded is a prefix"
+DecodedOK == /\ Len(decoded) <= Len(Selected)
+             /\ decoded # <<>> => decoded[Len(decoded)] = Selected[Len(decoded)]
+             /\ pc = "done" => Len(decoded) = Len(Selected)
+             /\ (pc = "strs" /\ Wanted(D[i]) /\ dobj.strs # <<>>) => dobj.strs[Len(dobj.strs)] = Slots(D[i])[Len(dobj.strs)]
 Export == pc = "done" =>
-            PrintT(<<"CASE", ToJson([fmt |-> "o5m", ds |-> ds, N |-> N, variant |-> variant, box |-> box,
-                                     steps |-> hist, exp |-> decoded])>>)
+            PrintT(<<"CASE", ToJson([fmt |-> "o5m", ds |-> ds, N |-> N, variant |-> variant, mask |-> SetToSeq(mask), box |-> box,
+                                     steps |-> hist, all |-> D, exp |-> decoded])>>)
 =============================================================================
